@@ -37,7 +37,7 @@ def stage_lists(d):
     return out
 
 
-def decorate(d, rng, qmode=None, raise_in_stage=False, p_kind=(0.34, 0.33, 0.33)):
+def decorate(d, rng, qmode=None, raise_in_stage=False, p_kind=(0.34, 0.33, 0.33), per_model_multi=False):
     """Turn a generated FlatDesc into a C07 case (in place).
 
     * kinds: every callback is a plain function (0), a coroutine function (1) or a coroutine function
@@ -46,7 +46,8 @@ def decorate(d, rng, qmode=None, raise_in_stage=False, p_kind=(0.34, 0.33, 0.33)
       `raise_in_stage`, so does every callback that raises (the gather finding is judged separately).
     * conditions sharing a stage (>= 2 conditions/unless on one transition) are deterministic:
       one constant outcome per callback, no commands, no raise.
-    * queued='model' is compared with the synchronous queued=True on one model only.
+    * queued='model' is compared with the synchronous queued=True on one model only; with
+      `per_model_multi` half of the queued='model' cases keep several models (model tie only).
     """
     d.qmode = rng.randrange(3) if qmode is None else qmode
     d.queued = bool(d.qmode)
@@ -72,7 +73,7 @@ def decorate(d, rng, qmode=None, raise_in_stage=False, p_kind=(0.34, 0.33, 0.33)
             d.script[(c, k)] = (cmds, out)
         else:
             del d.script[(c, k)]
-    if d.qmode == 2:
+    if d.qmode == 2 and not (per_model_multi and rng.random() < 0.5):
         d.models = d.models[:1]
         m0 = d.models[0]
         for key, (cmds, out) in list(d.script.items()):
